@@ -68,6 +68,7 @@ type histOut struct {
 	SetupErr      string   `json:"setup_err,omitempty"`
 	OverlapFaults int      `json:"faults_overlapping_open_ops"`
 	Probes        int      `json:"new_leader_read_probes"`
+	WriteProbes   int      `json:"leader_loss_write_probes"`
 	DupTokens     []string `json:"tokens_applied_more_than_once"`
 	ClientRetries int64    `json:"cluster_client_retries"`
 }
@@ -250,6 +251,7 @@ func run(c *vf.Ctx) {
 		c.Count("faults", int64(len(h.Faults)))
 		c.Count("faults_overlapping_open_ops", int64(h.OverlapFaults))
 		c.Count("new_leader_read_probes", int64(h.Probes))
+		c.Count("leader_loss_write_probes", int64(h.WriteProbes))
 		if h.OverlapFaults > 0 && len(h.Leaders) >= 2 {
 			c.Nontrivial(fmt.Sprintf("case%d/%v", i, h.Faults))
 		}
@@ -286,8 +288,38 @@ func run(c *vf.Ctx) {
 			}
 		}
 		c.Count("keys_excluded_for_duplicates", int64(len(dupKeys)))
+		// Direct oracle (linear time, decided before the search): a write that was
+		// refused with "leader not found" - nothing was sent anywhere - must never
+		// become visible. Tokens are unique, so a read names the writes it contains.
+		refused := map[string]rec{}
+		for _, r := range h.Recs {
+			if r.Out.Failed && r.In.Kind != "read" {
+				refused[r.In.Arg] = r
+			}
+		}
+		var ghost []any
+		for _, r := range h.Recs {
+			if r.In.Kind != "read" || r.Ret == 0 || r.Out.Unknown || dupKeys[r.In.Key] {
+				continue
+			}
+			for _, t := range strings.Split(r.Out.Val, ",") {
+				if fr, ok := refused[t]; ok && fr.In.Key == r.In.Key {
+					ghost = append(ghost, map[string]any{"refused_write": fr, "read": r})
+					delete(refused, t)
+				}
+			}
+		}
+		if len(ghost) > 0 {
+			c.Violation("refused-write-took-effect", fmt.Sprintf("history %d (%d nodes, faults %v): %d write(s) answered 503 'leader not found' are visible in later reads", i, h.Nodes, h.Faults, len(ghost)),
+				map[string]any{"case": i, "faults": h.Faults, "witnesses": ghost})
+			continue
+		}
 		ops := toOps(checked, end)
+		pt0 := time.Now()
 		res, info := porcupine.CheckOperationsVerbose(model, ops, 90*time.Second)
+		if dt := time.Since(pt0); dt > 5*time.Second {
+			c.Logf("history %d: porcupine took %s for %d ops (%d unknown outcomes)", i, dt.Round(time.Millisecond), len(ops), unk)
+		}
 		switch res {
 		case porcupine.Unknown:
 			c.Inconclusive("porcupine timeout")
@@ -487,6 +519,9 @@ func runHistory(c *vf.Ctx, caseNo int, dir string) (h histOut) {
 	if c.Tier == "thorough" {
 		durMs = 16000
 	}
+	if caseNo%4 == 0 {
+		durMs += 4000 // the directed history needs room for several probe rounds
+	}
 	var lastRead [K]atomic.Value
 	for ci := 0; ci < nClients; ci++ {
 		wg.Add(1)
@@ -583,6 +618,50 @@ func runHistory(c *vf.Ctx, caseNo int, dir string) (h histOut) {
 			// leadership it gets several concurrent linearizable reads of that key.
 			key := r.IntN(K)
 			probeSeq++
+			if probeSeq%2 == 0 {
+				// Write probe (every second round): several writes are in flight on the
+				// leader - sent to the followers, acknowledgements still on their way
+				// back - when it vanishes. Their entries survive in the next leader's
+				// log, so whatever the old leader answers, they may take effect.
+				rd := time.Duration(120+r.IntN(60)) * time.Millisecond
+				fault("heal", func() { cl.Net.HealAll() })
+				time.Sleep(300 * time.Millisecond)
+				if ld = cl.WaitLeader(3 * time.Second); ld == nil {
+					continue
+				}
+				fault(fmt.Sprintf("slow-acks-to-leader:%s:%s", ld.Name, rd), func() {
+					for _, o := range names {
+						if o != ld.Name {
+							cl.Net.SetReplyDelay(o, ld.Name, rd)
+						}
+					}
+				})
+				time.Sleep(300 * time.Millisecond)
+				if !ld.Store.IsLeader() {
+					continue
+				}
+				var ww sync.WaitGroup
+				for p := 0; p < 3; p++ {
+					ww.Add(1)
+					go func(p int) {
+						defer ww.Done()
+						in := opIn{Kind: "append", Key: (key + p) % K, Arg: fmt.Sprintf("q%d-%d", probeSeq, p), Node: ld.Name}
+						idx := recd.begin(70+p, in)
+						out, returned := doOp(cl, ld, in)
+						recd.end(idx, out, returned)
+					}(p)
+				}
+				time.Sleep(time.Duration(40+r.IntN(40)) * time.Millisecond)
+				fault("isolate-leader-with-writes-in-flight:"+ld.Name, func() { cl.Net.Isolate(ld.Name, names) })
+				h.WriteProbes++
+				ww.Wait()
+				time.Sleep(time.Duration(1200+r.IntN(900)) * time.Millisecond)
+				noteLeader()
+				fault("heal", func() { cl.Net.HealAll() })
+				time.Sleep(time.Duration(800+r.IntN(600)) * time.Millisecond)
+				noteLeader()
+				continue
+			}
 			win := opIn{Kind: "append", Key: key, Arg: fmt.Sprintf("p%d", probeSeq), Node: ld.Name}
 			widx := recd.begin(50, win)
 			wout, wret := doOp(cl, ld, win)
